@@ -345,6 +345,12 @@ func (fc *FnCtx) safeAssert(st *State, kind string, cond Term, pos token.Pos, te
 	}
 	fc.safeOrd[kind]++
 	name := fmt.Sprintf("safe-%s#%d", kind, fc.safeOrd[kind])
+	if ks := fc.contract.Opts["safekinds"]; ks != "" && !strings.Contains(","+ks+",", ","+kind+",") {
+		// `opt safekinds=index,slice`: only these kinds of site are obligations of this contract; the others keep
+		// the default (absence of that panic is assumed, and listed)
+		fc.assume(st, cond)
+		return
+	}
 	fc.assert(st, name, "safe", cond, pos, text)
 }
 
@@ -853,6 +859,16 @@ func (fc *FnCtx) binop(st *State, op string, l, r Term, resT types.Type, pos tok
 				return tNot(eq)
 			}
 			return eq
+		}
+		if l.Sort == SStr && fc.qdepth == 0 {
+			// the empty string is the only string of length 0
+			if e, ok := fc.strLits[""]; ok {
+				for _, x := range []Term{l, r} {
+					if x.S != e {
+						fc.assumeGlobal(boolT(fmt.Sprintf("(= (= %s %s) (= (strlen %s) 0))", x.S, e, x.S)))
+					}
+				}
+			}
 		}
 		if op == "==" {
 			return tEq(l, r)
